@@ -171,10 +171,12 @@ CLAIMED = {
              'pipeline (parse_vf, finalize, code generation, Cython/C compiler, import, assemble) in a subprocess and up to 11 '
              'entries per form are compared with the rationals (1e-10); entries of disjoint supports included. The rest of the '
              'grammar (builtin functions, divisions) is covered by build + load + assemble + finiteness.',
-        note='Value clause decided only for the polynomial fragment on affine geometries, degrees <= 2, 2-D (3-D in thorough), '
-             'scalar basis functions, volume measure; NURBS/curved geometries, surface/boundary measures and vector-valued forms '
-             'are covered by C06 (IR semantics) and C09/C08 (shipped assemblers) but not by the exact-value comparison; about '
-             '22 compiled forms per quick run, 130 thorough.',
+        note='Value clause decided for the polynomial fragment on affine geometries (incl. orientation-reversing ones), degrees <= 3, '
+             '2-D (3-D in thorough): scalar and vector-valued trial/test functions (blocked layout, non-square component blocks), '
+             'two-space Petrov-Galerkin forms (test degree above and below the trial degree), products of non-square matrices, and '
+             'boundary integrals with the unit normal on all four sides (assembled one after the other with one args dict). Not '
+             'decided by exact values: NURBS/curved geometries, surface integrals on embedded manifolds, 3-D boundary faces; these '
+             'are covered by C06 (IR semantics) and C09/C08 (shipped assemblers). About 60 compiled forms per quick run.',
         technique='TLA+ grammar state machine + exact denotational semantics in TLA+ (VFormAbs over a polynomial ring with rational coefficients) evaluated by TLC; real compile-and-assemble of every generated form compared entrywise',
         design_ref='3 C01'),
     'C08': dict(
